@@ -306,6 +306,36 @@ def gen_rpc_case(rng):
     return c
 
 
+def gen_idle_rpc_case(rng):
+    """Directed (seed C15): INFLIGHT >= 2, finite rate; the raw peer idles (answers no OPEN) for more than
+    (INFLIGHT + burst) refresh periods while the server's streams sit in the OPEN handshake, then answers all of them
+    and floods requests at once. Oracle: handler starts in any window <= burst + T/refresh + 1 (no stream is opened
+    before the release here, so the strict bound applies)."""
+    n = rng.choice([2, 5, 5])
+    burst = rng.range(1, 6)
+    refresh = rng.choice([3, 10, 25, 100, 1000, 10 ** 9])
+    periods = n + burst + rng.range(2, 6)
+    warm = [str(refresh)] * periods if rng.chance(1, 2) else [str(refresh * periods + rng.below(refresh))]
+    advs = [str(rng.choice([1, refresh // 2 + 1, refresh, refresh - 1, 2 * refresh])) for _ in range(rng.range(3, 10))]
+    return {"mode": "idle", "n": n, "rs": [str(burst), str(refresh)], "rc": [str(USIZE_MAX), "0"], "tasks": 1,
+            "hold": str(rng.choice([0, 0, 0, 1, refresh])), "rounds": burst + n + rng.range(3, 8), "warm": warm, "advs": advs,
+            "kind": "rpc-idle"}
+
+
+def gen_idle_mux_case(rng):
+    """The same mechanism at mux level: B's reusable streams (>= 2, finite rate) wait in the OPEN handshake while the raw
+    peer idles, then every handshake completes at once. Oracle: streams handed over in any window <= burst + T/refresh + 1."""
+    n = rng.range(2, 4)
+    burst = rng.range(1, 5)
+    refresh = rng.choice([3, 10, 25, 100, 1000])
+    periods = n + burst + rng.range(2, 6)
+    warm = [str(refresh)] * periods if rng.chance(1, 2) else [str(refresh * periods + rng.below(refresh))]
+    advs = [str(rng.choice([1, refresh // 2 + 1, refresh, refresh - 1, 2 * refresh])) for _ in range(rng.range(3, 10))]
+    return {"mode": "flood", "ma": n + rng.below(2), "mb": n, "ra": ["1", "1"], "rb": [str(burst), str(refresh)],
+            "na": 0, "nb": rng.range(n, n + 2), "hold_a": ["0"], "hold_b": [str(rng.choice([0, 0, 1]))], "advs": advs,
+            "warm": warm, "rounds": burst + n + rng.range(3, 8), "kind": "mux-idle"}
+
+
 def rpc_predicate(c, o):
     """Handler starts (HandlerLog) in any window within the server's rate; running handlers <= INFLIGHT.
     Returns (failures, strict_excess) where strict_excess describes a window of the withhold scenario that
@@ -344,7 +374,7 @@ def coq_rpc_trace(c, o):
     """The observed HandlerLog as a case of Model.RpcServe.accept_serve. eager = the peer is the raw byte writer,
     which sends its OPENs ahead of time (flood, withhold); a real client opens when it calls (pair)."""
     evs = coq_list([f"({coq_z(e[1])}, {'true' if e[0] == 1 else 'false'})" for e in o["events"]])
-    eager = "false" if c["mode"] == "pair" else "true"
+    eager = "false" if c["mode"] in ("pair", "idle") else "true"
     return f"({coq_z(c['rs'][0])}, {coq_z(c['rs'][1])}, {c['n']}%nat, {eager}, {evs})"
 
 
@@ -601,7 +631,7 @@ def run(rep):
         broken.append(f"correspondence vh limiter vs Model.Limiter.run_case: {len(mm)} disagreeing scripts")
     # ---- RPC half at mux level: real Mux + StreamQueue limiters, trace acceptance by the StreamQueue model
     nmux = 60 if tier == "quick" else 1500
-    mcases = [gen_mux_case(rng) for _ in range(nmux)]
+    mcases = [gen_mux_case(rng) for _ in range(nmux)] + [gen_idle_mux_case(rng) for _ in range(12 if tier == "quick" else 300)]
     mouts, mhung = run_impl_retry("limiter_mux", mcases)
     hangs += [{"binary": "limiter_mux", "case": mcases[i]} for i in mhung]
     mux_fail, traces, mux_opens = [], [], 0
@@ -638,7 +668,7 @@ def run(rep):
                       found_input=False)
     # ---- RPC half, rpc::Service itself (hook verif::rpc): handler starts and concurrency, trace acceptance
     nrpc = 60 if tier == "quick" else 1500
-    rcases = [gen_rpc_case(rng) for _ in range(nrpc)]
+    rcases = [gen_rpc_case(rng) for _ in range(nrpc)] + [gen_idle_rpc_case(rng) for _ in range(12 if tier == "quick" else 300)]
     routs, rhung = run_impl_retry("limiter_rpc", rcases)
     hangs += [{"binary": "limiter_rpc", "case": rcases[i]} for i in rhung]
     rpc_fail, rtraces, rpc_starts, excesses = [], [], 0, []
@@ -721,7 +751,7 @@ def run(rep):
         "mux_cases": len(mcases), "mux_traces_accepted_by_model": len(traces) - len(tmm), "mux_traces": len(traces), "mux_streams_opened": mux_opens,
         "mux_predicate_failures": len(mux_fail),
         "distinct_nontrivial": len(distinct),
-        "rule": "late wake-up family (a waiter parked on an empty bucket, the clock jumps 1-6 periods past its deadline with nothing polled (advx), a held permit is dropped at the later tick before the waiter runs, then a burst of acquires; burst 2-12, refresh 1 ns-1 s, held 1-3, wanted 1-3; 1/6 controls with normal polling); 1 in 6 clock advances of the random scripts is of the no-poll kind as well; scripts of 4-45 (thorough: up to 140) ops over one Limiter: acquire(p) with p in {1, 0, 1..burst, burst, burst+1, usize::MAX} (1/3 cancellable through their ctx, 2/3 by dropping the future), cancel k, drop k (live targets 6/7, arbitrary 1/7), clock advances {0,1,r-1,r,r+1,k*r,sub-tick,huge}; burst in {0,1..30,2^k,usize::MAX}, refresh in {1..10 ns, ms..s, random, 10^18, 0, negative}, start offset; + flood scripts (back-to-back acquire(1), consume at once) + twin scripts (inserted acquire+cancel) + mux cases (1-3 x 1-3 streams, 1-4 app tasks per side looping open/hold/drop, rates burst 1-5 / refresh 3-1000 ns or INF, pair or raw flood peer) + rpc::Service cases (INFLIGHT 1/2/5, server burst 1-5 / refresh 3-1000 ns, client with 1-6 tasks calling back to back, raw flood peer, raw withholding peer, handler hold 0..3 refresh); non-trivial = distinct scripts in which some acquire had to wait (granted later than issued, pending at the end, or cancelled)",
+        "rule": "late wake-up family (a waiter parked on an empty bucket, the clock jumps 1-6 periods past its deadline with nothing polled (advx), a held permit is dropped at the later tick before the waiter runs, then a burst of acquires; burst 2-12, refresh 1 ns-1 s, held 1-3, wanted 1-3; 1/6 controls with normal polling); 1 in 6 clock advances of the random scripts is of the no-poll kind as well; scripts of 4-45 (thorough: up to 140) ops over one Limiter: acquire(p) with p in {1, 0, 1..burst, burst, burst+1, usize::MAX} (1/3 cancellable through their ctx, 2/3 by dropping the future), cancel k, drop k (live targets 6/7, arbitrary 1/7), clock advances {0,1,r-1,r,r+1,k*r,sub-tick,huge}; burst in {0,1..30,2^k,usize::MAX}, refresh in {1..10 ns, ms..s, random, 10^18, 0, negative}, start offset; + flood scripts (back-to-back acquire(1), consume at once) + twin scripts (inserted acquire+cancel) + mux cases (1-3 x 1-3 streams, 1-4 app tasks per side looping open/hold/drop, rates burst 1-5 / refresh 3-1000 ns or INF, pair or raw flood peer) + rpc::Service cases (INFLIGHT 1/2/5, server burst 1-5 / refresh 3-1000 ns, client with 1-6 tasks calling back to back, raw flood peer, raw withholding peer, handler hold 0..3 refresh) + directed idle-peer family at mux and rpc level (>= 2 reusable streams, finite rate, the raw peer answers no OPEN for more than INFLIGHT + burst periods, then answers all and floods: opens / handler starts at the release instant must stay <= burst + 1); non-trivial = distinct scripts in which some acquire had to wait (granted later than issued, pending at the end, or cancelled)",
         "input_distribution": dict(kinds, acquires=nacq, grants=ngr, cancelled=ncancel, twin_pairs=len(twins), twin_pairs_with_cancelled_wait=twin_checked),
         "samples": [{"case": strip(cases[i]), "impl": outs[i], "model_obs": samp.get(i)} for i in sample_ids if i < len(cases)]
                    + [{"mux_case": mcases[t[3]], "side": t[4], "impl": mouts[t[3]], "model_accept_trace": tsamp.get(t[0])} for t in traces[:2]]
